@@ -3,6 +3,7 @@
 package vatomic
 
 import (
+	"reflect"
 	"unsafe"
 
 	zzvrt "github.com/go-spring/log/zzvrt"
@@ -75,11 +76,39 @@ func (x *Pointer[T]) CompareAndSwap(o, n *T) bool {
 
 type Value struct{ v any }
 
+// The panics of the real type are part of its behaviour (a nil value, a value whose concrete type differs
+// from the one stored first): code that stores two kinds of error into one Value crashes in production.
+func (x *Value) check(v any, op string) {
+	if v == nil {
+		panic("sync/atomic: " + op + " of nil value into Value")
+	}
+	if x.v != nil && reflect.TypeOf(x.v) != reflect.TypeOf(v) {
+		panic("sync/atomic: " + op + " of inconsistently typed value into Value")
+	}
+}
+
 func (x *Value) Load() any      { pt(); return x.v }
-func (x *Value) Store(v any)    { pt(); x.v = v; pp() }
-func (x *Value) Swap(v any) any { pt(); o := x.v; x.v = v; pp(); return o }
+func (x *Value) Store(v any)    { pt(); x.check(v, "store"); x.v = v; pp() }
+func (x *Value) Swap(v any) any { pt(); x.check(v, "swap"); o := x.v; x.v = v; pp(); return o }
 func (x *Value) CompareAndSwap(o, n any) bool {
 	pt()
+	if n == nil {
+		panic("sync/atomic: compare and swap of nil value into Value")
+	}
+	if o != nil && reflect.TypeOf(o) != reflect.TypeOf(n) {
+		panic("sync/atomic: compare and swap of inconsistently typed values")
+	}
+	if x.v == nil {
+		if o != nil {
+			return false
+		}
+		x.v = n
+		pp()
+		return true
+	}
+	if reflect.TypeOf(x.v) != reflect.TypeOf(n) {
+		panic("sync/atomic: compare and swap of inconsistently typed value into Value")
+	}
 	if x.v == o {
 		x.v = n
 		pp()
